@@ -37,6 +37,14 @@ fn lemmatize(word: &str) -> &str {
     }
 }
 
+/// The multiplier in front of a scale word: the `positions` rightmost digits without their
+/// leading zeroes (empty if there is nothing, or only zeroes, to multiply).
+fn multiplier(b: &DigitString, positions: usize) -> &[u8] {
+    let peek = b.peek(positions);
+    let start = peek.iter().position(|&c| c != b'0').unwrap_or(peek.len());
+    &peek[start..]
+}
+
 impl Default for Italian {
     fn default() -> Self {
         Self {
@@ -179,63 +187,63 @@ impl LangInterpreter for Italian {
                 }
             }
             "milione" if b.is_range_free(6, 8) => {
-                if b.len() != 1 || b.peek(1) != b"1" {
+                if multiplier(b, 6) != b"1" {
                     Err(Error::NaN)
                 } else {
                     b.shift(6)
                 }
             }
             "milionesim" if b.is_range_free(6, 8) => {
-                if b.len() == 1 && b.peek(1) == b"1" {
+                if multiplier(b, 6) == b"1" {
                     Err(Error::NaN)
                 } else {
                     b.shift(6)
                 }
             }
             "milioni" if b.is_range_free(6, 8) => {
-                if b.is_empty() || b.len() == 1 && b.peek(1) == b"1" {
+                if multiplier(b, 6).is_empty() || multiplier(b, 6) == b"1" {
                     Err(Error::NaN)
                 } else {
                     b.shift(6)
                 }
             }
             "miliardo" => {
-                if b.len() != 1 || b.peek(1) != b"1" {
+                if multiplier(b, 9) != b"1" {
                     Err(Error::NaN)
                 } else {
                     b.shift(9)
                 }
             }
             "miliardesim" => {
-                if b.len() == 1 && b.peek(1) == b"1" {
+                if multiplier(b, 9) == b"1" {
                     Err(Error::NaN)
                 } else {
                     b.shift(9)
                 }
             }
             "miliardi" => {
-                if b.is_empty() || b.len() == 1 && b.peek(1) == b"1" {
+                if multiplier(b, 9).is_empty() || multiplier(b, 9) == b"1" {
                     Err(Error::NaN)
                 } else {
                     b.shift(9)
                 }
             }
             "bilione" => {
-                if b.len() != 1 || b.peek(1) != b"1" {
+                if multiplier(b, 12) != b"1" {
                     Err(Error::NaN)
                 } else {
                     b.shift(12)
                 }
             }
             "bilionesim" => {
-                if b.len() == 1 && b.peek(1) == b"1" {
+                if multiplier(b, 12) == b"1" {
                     Err(Error::NaN)
                 } else {
                     b.shift(12)
                 }
             }
             "bilioni" => {
-                if b.is_empty() || b.len() == 1 && b.peek(1) == b"1" {
+                if multiplier(b, 12).is_empty() || multiplier(b, 12) == b"1" {
                     Err(Error::NaN)
                 } else {
                     b.shift(12)
